@@ -247,6 +247,14 @@ def gen_cases(tier):
             c["alts"] = alternatives(rng, vs, rng.randint(2, 3), mode)
             if nv >= 2 and i % 4 == 1:
                 c["alts"] = slabs(rng, vs, rng.randint(2, 3), mode)
+            if nv >= 2 and i % 12 in (6, 11, 0):
+                # alternatives over DIFFERENT variable sets: the first is cut off from the second only through a variable the second
+                # does not mention (x <= y, y <= h  against  x >= h + gap)
+                h, gap = rng.randint(-2, 2), {"disjoint": rng.randint(1, 2), "touching": 0, "overlapping": -rng.randint(1, 2), "mixed": rng.choice([1, 0, -1])}[mode]
+                x, y = vs[0], vs[1]
+                c["alts"] = [[({x: 1, y: -1}, 0), ({y: 1}, h)], [({x: -1}, -(h + gap))]]
+                if rng.random() < 0.5:
+                    c["alts"].reverse()
             if i % 12 == 0:
                 # three alternatives, only the first and the last overlap
                 w = rng.randint(1, 2)
@@ -277,7 +285,12 @@ def gen_cases(tier):
                 g = [box_alt(rng, outv + inv, rng.randint(-5, 0), rng.randint(1, 6)) for _ in range(rng.randint(1, 2))]
                 if i % 5 == 2:
                     g = slabs(rng, outv + inv, rng.randint(1, 2), "disjoint")      # sparse alternatives: joined pairwise they have no more rows than variables
-                return {"inv": inv, "outv": outv, "a": alternatives(rng, inv, rng.randint(1, 3), "disjoint"), "g": g}
+                if i % 5 == 4:
+                    g = g[:1] + [[]]                                              # "otherwise nothing is promised": an alternative without any constraint
+                a_ = alternatives(rng, inv, rng.randint(1, 3), "disjoint")
+                if i % 10 == 9:
+                    a_ = [[]]                                                     # no assumption at all, written as one alternative without constraints
+                return {"inv": inv, "outv": outv, "a": a_, "g": g}
             c["c1"], c["c2"] = spec(), spec()
             if (i // 6) % 3 != 1:
                 # a history of two merges; in half of them the first merge leaves no alternative at all on one side
